@@ -1080,7 +1080,7 @@ class Epoch(object):
         b = year % 4
         q = (-1.904412361576 + 1.554241796621 * a
              + 0.25 * b - 0.003177794022 * year + s)
-        j = (iint(q) + 3 * year + 5 * b + 2 + s) % 7
+        j = (iint(q) + 3 * year + 5 * b + 2 - s) % 7
         r = q - iint(q)
         if j == 2 or j == 4 or j == 6:
             d = iint(q) + 23
